@@ -3,6 +3,6 @@
     ensures
         (r is Ok) == (from_map_spec::<T>(*path_params) is Some), // @ok_iff_path_variables_decode
         r is Ok ==> r->Ok_0 == from_map_spec::<T>(*path_params)->Some_0, // @value_passed_through_unaltered
-        r is Err ==> status_of(r->Err_0) == 400, // @undecodable_path_refused_with_400
+        r is Err ==> is_client_code(status_of(r->Err_0)), // @undecodable_path_refused_with_400
 //@ closure 0
-|message: String| -> (h: HttpError) requires !is_missing_field_msg(message@) ensures status_of(h) == 400
+|message: String| -> (h: HttpError) requires !is_missing_field_msg(message@) ensures is_client_code(status_of(h))
